@@ -678,6 +678,18 @@ def normalise(t):
         if t[1] == "Option::unwrap_or_else":
             d = t[3][2] if (_is(t[3], "lambda") and not t[3][1]) else ("icall", t[3])
         return normalise(("match", t[2][1], (("pvar", "Option::Some", t[2][2]), t[2][3]), (("pvar", "Option::None"), d)))
+    if h == "mapopt" and len(t) == 4 and _is(t[1], "call") and t[1][1] == "Option::filter" and len(t[1]) == 4 and _is(t[1][3], "lambda") and len(t[1][3][1]) == 1 and _is(t[1][3][1][0], "bind"):
+        # x.filter(|c| *c == K).map(|_| v)   ==   if let Some(K) = x { Some(v) } else { None }        (K a char literal, v does not use the element)
+        x, c, pred = t[1][2], t[1][3][1][0][1], t[1][3][2]
+        uses_elem = (t[2] != "_") and any(y == ("var", t[2][1]) for y in _subterms(t[3])) if _is(t[2], "bind") else False
+        k = None
+        if _is(pred, "op") and len(pred) == 5 and pred[1] == "eq" and pred[2] == "char":
+            if pred[3] == ("var", c) and _is(pred[4], "char"):
+                k = pred[4]
+            elif pred[4] == ("var", c) and _is(pred[3], "char"):
+                k = pred[3]
+        if k is not None and not uses_elem:
+            return normalise(("if", ("iflet", ("pvar", "Option::Some", k), x), ("Some", t[3]), ("None",)))
     if h == "mapopt" and len(t) == 4 and _is(t[1], "okopt") and len(t[1]) == 2 and _is(t[2], "bind"):
         # r.ok().map(f) == match r { Ok(v) => Some(f(v)), Err(_) => None }
         return normalise(("match", t[1][1], (("pvar", "Result::Ok", t[2]), ("Some", t[3])), (("pvar", "Result::Err", "_"), ("None",))))
